@@ -190,6 +190,7 @@ def _static_facts(work):
     writes = []      # (function, lhs)
     addr = []        # (function, symbol)
     calls = []       # (function, kind, target)
+    extaddr = []     # (function, external function whose address is taken)
     for line in gf.splitlines():
         mo = re.match(r"^([A-Za-z_][A-Za-z_0-9$:]*) /\* .* \*/\s*$", line)
         if mo:
@@ -215,7 +216,10 @@ def _static_facts(work):
         for sym in list(mutable) + list(EXPECTED_MUTABLE):
             if "address_of(%s" % sym in s:
                 addr.append((cur, sym, s[:160]))
-    res = dict(mutable=mutable, writes=writes, addr=addr, calls=calls, libfuncs=libfuncs, nfuncs=nfuncs)
+        for ext in ("malloc", "free", "time", "stdlib_time", "calloc", "realloc", "rand", "random", "getrandom", "clock_gettime", "gettimeofday"):
+            if "address_of(%s)" % ext in s:
+                extaddr.append((cur, ext))
+    res = dict(mutable=mutable, writes=writes, addr=addr, calls=calls, libfuncs=libfuncs, nfuncs=nfuncs, extaddr=extaddr)
     _static_cache[work] = res
     return res
 
@@ -279,8 +283,10 @@ def calls_engine(prop, tier, work, name):
                 continue
             bad.append("%s calls through pointer %s" % (fn, tgt))
     # malloc / free / stdlib_time only as fall-backs installed by polyseed_inject
-    for fn, sym, s in []:
-        pass
+    for fn, ext in sf["extaddr"]:
+        n += 1
+        if fn != "polyseed_inject" or ext not in ("malloc", "free", "stdlib_time"):
+            bad.append("%s takes the address of %s" % (fn, ext))
     return [{"name": "S.calls", "status": "fail" if bad else "pass", "evaluated": n,
              "detail": "; ".join(sorted(set(bad))[:6]) if bad else
              "every direct call in library code targets a library function or one of memcpy/memset/memcmp/bsearch/strcmp/assert; "
